@@ -27,7 +27,8 @@ def cases(tier):
                 out.append({'cfg': cfg, 'name': '%s, external RNG %s (n%d m%d x%d)' % (name, fault, n, m, x), 'expect_shared': expect_shared, 'pairname': name})
             base = member(m, cap, x, fault, promises=['3' if n >= 2 else None] + [None] * (m - 1))
             pair('identical runs', base, dict(base), True)
-            for sj in range(m):
+            # two different openings of ONE commitment need two blinding generators (g_1 = 2 g_0): only for extension degree >= 2
+            for sj in (range(m) if x >= 2 else ()):
                 pair('witness differs (same commitment), opening %d' % sj, dict(base, degenerate_g=True), dict(base, degenerate_g=True, witness_shift=sj), False)
             pair('transcript context differs', base, dict(base, label='alt'), False)
             if m >= 2 and n >= 2:
@@ -35,7 +36,7 @@ def cases(tier):
                 pb = dict(base, promises=[None, '1'] + [None] * (m - 2))
                 pair('statement differs (promise position)', pa, pb, False)
             pair('statement differs (promise value)', base, dict(base, promises=['2' if n >= 2 else '1'] + [None] * (m - 1)), False)
-            if m == 1:
+            if m == 1 and x >= 2:
                 sa = dict(base, seeded=True)
                 pair('seeded: witness differs (same commitment)', dict(sa, degenerate_g=True), dict(sa, degenerate_g=True, witness_shift=0), False)
     return out
